@@ -8,6 +8,7 @@ import TzVerif.Model.DateTime
 import TzVerif.Spec.Calendar
 import TzVerif.Proofs.Calendar
 import TzVerif.Proofs.SrcEqCal
+import TzVerif.Proofs.SrcEqGetters
 import TzVerif.Generated.StableC01   -- per run: the current translation (SrcNow) equals the baseline (Src) these theorems are about
 
 namespace TzVerif.C01
@@ -87,5 +88,23 @@ theorem fields_correct_src (t ns : Int) (c : UtcDateTime) (h : Src.UtcDateTime.f
 theorem accepted_iff_src (t ns : Int) :
     (∃ c, Src.UtcDateTime.from_timespec t ns = .ok c) ↔ (MIN_UNIX_TIME ≤ t ∧ t ≤ MAX_UNIX_TIME) := by
   rw [Proofs.SrcEq.utc_from_timespec_eq]; exact accepted_iff t ns
+
+/-- what a user reads: the getters `impl_datetime!()` generates, as the source has them, applied to the result of the
+translated `UtcDateTime::from_timespec` — the stored fields, the weekday and the day of year of the instant -/
+theorem getters_src (t ns : Int) (c : UtcDateTime) (h : Src.UtcDateTime.from_timespec t ns = .ok c) :
+    Src.UtcDateTime.year c = c.year ∧ Src.UtcDateTime.month c = c.month ∧ Src.UtcDateTime.month_day c = c.monthDay ∧
+    Src.UtcDateTime.hour c = c.hour ∧ Src.UtcDateTime.minute c = c.minute ∧ Src.UtcDateTime.second c = c.second ∧
+    Src.UtcDateTime.nanoseconds c = ns ∧
+    Src.UtcDateTime.week_day c = Spec.weekdayOfDay (t / 86400) ∧
+    Src.UtcDateTime.year_day c = t / 86400 - Spec.daysBeforeYear c.year := by
+  have h' := Proofs.SrcEq.utc_from_timespec_eq t ns ▸ h
+  have hf := fields_correct t ns c h'
+  obtain ⟨hm1, hm12, hd1, hdl⟩ := hf.1
+  have hd255 : c.monthDay ≤ 255 := by
+    have : Spec.monthLen c.year c.month ≤ 31 := by unfold Spec.monthLen; repeat' split <;> omega
+    omega
+  refine ⟨rfl, rfl, rfl, rfl, rfl, rfl, hf.2.2.2.2.2.2.2.2.1, ?_, ?_⟩
+  · rw [Proofs.SrcEq.utc_week_day_eq]; exact (week_day t ns c h').1
+  · rw [Proofs.SrcEq.utc_year_day_eq c ⟨hm1, hm12⟩ ⟨hd1, hd255⟩]; exact (year_day t ns c h').1
 
 end TzVerif.C01
